@@ -19,6 +19,9 @@ CONE = ["Base.v", "IR.v", "Show.v", "Build.v", "Sem.v", "Plan.v", "Named.v", "Va
 PROPS = "props/C01.v"
 
 
+F32 = np.float32
+
+
 def gen_cases(run: Run, n: int):
     rng = run.rng
     cases = []
@@ -37,6 +40,17 @@ def gen_cases(run: Run, n: int):
             cases[-1].meta["after_build_of_one_control_flow_value"] = True
         cases[-1].meta["snapshot_problems"] = B.snapshot_problems(g.snapshots)
         cases[-1].meta["oneshot_problems"] = list(g.oneshot_problems)
+    # RANK matters: scalar (rank 0) and one-element (rank 1) initializers / constants whose own rank reaches a requested output
+    # (alone, combined with each other, inside an If branch and a Loop body, next to an ordinary broadcast use)
+    for mk_name, mk in (("initializer", B.initializer), ("const", B.op17.const)):
+        for sh in ((), (1,)):
+            x = B.argument(B.Tensor(F32, (2,)))
+            cnd = B.argument(B.Tensor(np.bool_, ()))
+            s1, s2 = mk(np.array(3, F32).reshape(sh)), mk(np.array(-2, F32).reshape(sh))
+            (br,) = B.op17.if_(cnd, then_branch=lambda: [B.op17.relu(s2)], else_branch=lambda: [B.op17.mul(s1, s2)])
+            lp = B.op17.loop(B.op17.const(np.array(2, np.int64)), v_initial=[s1], body=lambda i, c, a: [c, B.op17.mul(a, s2)])[0]
+            outs = {"prod": B.op17.mul(s1, s2), "alone": B.op17.relu(s1), "branch": br, "carried": lp, "broadcast": B.op17.add(x, s1)}
+            cases.append(B.Case({"x": x, "cnd": cnd}, outs, False, {"legal": True, "rank_of_small_constants": f"{mk_name}{list(sh)}"}))
     # scope-tree skeletons (shared with C04): a value (every 2nd time an initializer) created in one scope and used in others
     from harness import c04
     sks = list(c04.enumerate_skeletons(3, 1))
